@@ -706,6 +706,7 @@ var canAddrTable = map[string]string{
 	"json.constructStructCodec->json.constructStructType":           "prop",
 	"json.constructStructType->json.appendStructFields":             "prop",
 	"json.appendStructFields->json.constructStructType":             "prop|ptr",
+	"json.appendStructFields->json.usesMarshaler":                   "prop",
 	"json.appendStructFields->json.constructCodec":                  "prop",
 	"json.constructPointerCodec->json.constructCodec":               "true",
 	"json.constructEmbeddedStructPointerCodec->json.constructCodec": "true",
